@@ -41,9 +41,14 @@ macro_rules! harness_stub {
     };
 }
 
+pub mod c01;
+pub mod c02;
 pub mod c04;
 pub mod c07;
+pub mod c08;
+pub mod c08d;
 pub mod c15;
+pub mod c16;
 pub mod c06;
 pub mod c12;
 #[cfg(verif_levels = "8")]
